@@ -394,6 +394,7 @@ var hmuts = func() []hmut {
 		"other-host": {"https://other.example:8443/up/3"}, "force-query": {"/v2/foo/bar/blobs/uploads/u4?"},
 		"with-query": {"/up?state=abc&digest=zzz"}, "bad-ipv6": {"http://[::1"}, "space": {" "},
 		"fragment": {"#frag"}, "long": {"/" + long}, "dup": {"/a", "://"}, "ctl": {"/a\x7fb"}, "opaque": {"mailto:x@y"},
+		"authority-only": {"http://other.example"}, "same-host-no-path": {"https://" + host}, "authority-query": {"http://other.example?x=1"}, "opaque-http": {"http:foo"},
 	})
 	add("Range", "range", map[string][]string{
 		"absent": nil, "empty": {""}, "abc": {"abc"}, "open-end": {"0-"}, "no-start": {"-5"}, "reversed": {"5-0"},
@@ -834,6 +835,10 @@ var wprogs = []wprog{
 	// a caller that keeps using the writer after Commit, whatever Commit answered
 	{"w3-commit-info-w9-commit-info-close", 4, []wstep{{'w', 3}, {'m', 0}, {'i', 0}, {'w', 9}, {'m', 0}, {'i', 0}, {'c', 0}}, []role{rPut, rPatch, rPut}},
 	{"commit-info-commit-cancel-info", 1, []wstep{{'m', 0}, {'i', 0}, {'m', 0}, {'x', 0}, {'i', 0}}, []role{rPut, rPut}},
+	// a caller that picks the upload up again under the writer's own ID (whatever the server's Location made of it)
+	{"w5-close-resume-w3-commit", 4, []wstep{{'w', 5}, {'c', 0}, {'r', 0}, {'w', 3}, {'m', 0}}, []role{rPatch, rPut}},
+	{"info-resume-w10-commit", 0, []wstep{{'i', 0}, {'r', 0}, {'w', 10}, {'m', 0}}, []role{rPut}},
+	{"w8-resume-resume-close", 8, []wstep{{'w', 8}, {'r', 0}, {'r', 0}, {'c', 0}}, []role{rPatch}},
 }
 
 type scenario struct {
@@ -979,6 +984,15 @@ func (x *execCtx) runWriter(op string, w ociregistry.BlobWriter, err error, p *w
 			x.step("BlobWriter.Cancel", 1, func() error { return w.Cancel() })
 		case 'i':
 			x.step("BlobWriter.info", 0, func() error { _ = w.ID(); _ = w.Size(); _ = w.ChunkSize(); return nil })
+		case 'r':
+			// resume under the writer's own ID at its own size: no request is needed for that
+			x.step("PushBlobChunkedResume(own ID)", 0, func() error {
+				w2, err := x.c.PushBlobChunkedResume(ctx, repo, w.ID(), w.Size(), p.chunk)
+				if err == nil && w2 != nil {
+					w = w2
+				}
+				return err
+			})
 		}
 	}
 }
